@@ -100,7 +100,11 @@ def classify(rej, scratch=None):
             return {"C08"}
         return {"C04"}
     if ev == "wret":
-        return {"C06"}   # the only constraint on a writer's return: no notification offered twice to one client
+        # constraints on a writer's return: no notification offered twice to one client (C06); offered to exactly the
+        # registered streams whose paths agree (C06) - a stream that is not offered what it is owed does not converge (C04)
+        if any(f.get("maxoff", 0) > 1 for f in e.get("fed", [])):
+            return {"C06"}
+        return {"C06", "C04"}
     if ev in ("dupcheck", "offer"):
         return {"C06", "C08"} if ev == "dupcheck" else {"C06"}
     return set()
